@@ -155,7 +155,7 @@ register("ref", lambda n, v, kids, extra: iso.PRef(kids[0] if isinstance(kids[0]
          lambda g: node("ref", [], [], [g.stream()]), pyclass="PRef")
 register("seq", _seq_build, lambda g: g.stream(depth=0), pyclass="PSequence")
 for _name, (_cls, _pyop) in BINOPS.items():
-    register(_name, _bin(_cls, _pyop), _gen_bin(_name), pyclass=_cls)
+    register(_name, _bin(_cls, _pyop), _gen_bin(_name), params=((0, "a"), (1, "b")), pyclass=_cls)
 register("abs", lambda n, v, kids, extra: abs(kids[0]) if isinstance(kids[0], iso.Pattern) else iso.PAbs(kids[0]),
          lambda g: node("abs", [], [], [g.stream()]), pyclass="PAbs", inputs=(0,))
 register("int", lambda n, v, kids, extra: iso.PInt(kids[0]), lambda g: node("int", [], [], [g.stream()]), pyclass="PInt", inputs=(0,))
